@@ -950,6 +950,21 @@ def directed_cases(rng):
                     seal(b"\x01\x04\x07\x0b\x01\x00" + folder + b"\x0c\x05\x0a\x01" + b"\x00\x00"), None, ["getnames"], None))
         out.append(("%d files, EMPTY_STREAM vector of one byte" % n, seal(b"\x01\x05" + num(n) + b"\x0e\x01\xff\x00\x00"), None,
                     ["getnames"], ("alloc", "numfiles")))
+    # 7zAES key derivation: 2^numcyclespower SHA-256 rounds; the reader refuses more than 2^24 (about 3 s).  Declared powers above
+    # that must be refused at once, whatever the other bits of the property bytes say
+    try:
+        ea = arch.make_archive([("a.txt", b"hello world" * 10)], chain="copy+aes", password="secret", encoded=False)
+        ep, eh = split(ea)
+        ET = tokens_of(hdr.impl_parse(eh)[1])
+        for power in (25, 26, 30, 36, 37, 48, 62):
+            T2 = [list(x) for x in ET]
+            for x in T2:
+                if x[0] == "unpack.folder.coder.props" and len(x[2]) >= 2:
+                    x[2] = bytes([(x[2][0] & 0xC0) | power]) + x[2][1:]
+            out.append(("regression: 7zAES coder declaring 2^%d key-derivation rounds" % power, seal(assemble(T2), ep), "secret",
+                        ["getnames", "extractall"], None))
+    except Exception:  # noqa
+        pass
     # perfectly valid archives whose member names collide with the names extraction invents for duplicates (<name>_<k>)
     for names in (["a", "a", "a"], ["a_0", "a", "a"], ["a", "a_0", "a"], ["a", "a", "a_0"], ["a", "a", "a_0", "a_1", "a"],
                   ["a_1", "a_0", "a", "a", "a"], ["d/a", "d/a_0", "d/a", "d/a"]):
